@@ -44,7 +44,7 @@ Proof.
   destruct (i_shadow _ _ H) as [S [L [S1 [S2 [S3 S4]]]]].
   constructor; simpl.
   - split; [exact Hlt|exact (i_sorted _ _ H)].
-  - constructor; [|exact (i_valid _ _ H)]. split; [exact Hv|]. exists false. intros k Hk. contradiction.
+  - constructor; [|exact (i_valid _ _ H)]. split; [exact Hv|exact I].
   - eapply ids_ok_gen with (st := st); [exact (i_ids _ _ H)|simpl; lia|reflexivity|].
     simpl. constructor; [simpl; lia|]. eapply Forall_id_weaken; [|exact (proj1 (i_ids _ _ H))]. lia.
   - eapply jb_inv_mono with (st := st) (s := s); [exact (i_jb _ _ H)|reflexivity|reflexivity|reflexivity|].
@@ -194,7 +194,7 @@ Proof.
   destruct Hl' as [Hl'1 Hl'2]. simpl. fold l'. repeat split; auto.
   - rewrite rehook_all_proj, Hl'1. apply rehook_all_shadow_hooked; [exact Hs|exact Hv|].
     intros f Hin Hp. eapply mem_exc_unhooked; eauto.
-  - intros a Ha. rewrite rehook_all_proj, Hl'1. apply rehook_all_p_other. exact Ha.
+  - intros a Ha. rewrite rehook_all_proj, Hl'1. apply rehook_all_p_other. intros y Hy. apply in_rev in Hy. apply Ha. exact Hy.
 Qed.
 
 (* the shadow stack is re-hooked (catch, or a traced function entered while in_exception) *)
@@ -309,7 +309,7 @@ Proof.
   destruct (push_mem (frames st) (rs s) mm sl (tramp_of b) e Hplain (i_sorted _ _ H) (i_valid _ _ H) Hlt Hmem Pe1) as [M1 M2].
   constructor; simpl.
   - split; [exact Hlt|exact (i_sorted _ _ H)].
-  - constructor; [|exact (i_valid _ _ H)]. split; [exact Hv|]. exists b. intros k [Hk|Hk]; [auto|contradiction].
+  - constructor; [|exact (i_valid _ _ H)]. split; [exact Hv|exact I].
   - eapply ids_ok_gen with (st := st); [exact (i_ids _ _ H)|simpl; lia|reflexivity|].
     simpl. constructor; [simpl; lia|]. eapply Forall_id_weaken; [|exact (proj1 (i_ids _ _ H))]. lia.
   - eapply jb_inv_mono with (st := st) (s := s); [exact (i_jb _ _ H)|reflexivity|exact Hj1|exact Hj2|].
@@ -448,14 +448,14 @@ Qed.
 
 (* ================================================================ tail calls *)
 Lemma Inv_tail : forall st s s' b f rest e L',
-  Inv st s -> exc st = false -> frames st = f :: rest -> (forall k, In k (f_pend f) -> k = b) ->
+  Inv st s -> exc st = false -> frames st = f :: rest ->
   rs s' = e :: L' -> proj e = (f_slot f, m s (f_slot f), b) -> e_lj e = false ->
   map proj L' = map proj (rs s) -> nolj L' ->
   (forall a, m s' a = auto_restore false (e :: rs s) (upd (m s) (f_slot f) (tramp_of b)) a) ->
   inexc s' = false -> jbs s' = jbs s -> jpc s' = jpc s ->
   Inv (bump (mk st (fresh st (f_slot f) (f_ra f) (b :: f_pend f) :: rest) (flight st) false (extra st) (stale st))) s'.
 Proof.
-  intros st s s' b f rest e L' H He HF Hh Hrs Hpe Hlj HL' Hnl Hm Hi Hj1 Hj2.
+  intros st s s' b f rest e L' H He HF Hrs Hpe Hlj HL' Hnl Hm Hi Hj1 Hj2.
   pose proof (i_sorted _ _ H) as Hs. rewrite HF in Hs. destruct Hs as [Hlt Hs].
   pose proof (i_valid _ _ H) as Hv. rewrite HF in Hv. inversion Hv as [|? ? [Hvra Hvh] Hvr]; subst.
   pose proof (Inv_rs_plain _ _ H He) as Hplain. rewrite HF in Hplain.
@@ -478,7 +478,7 @@ Proof.
   destruct Hmm as [Hm1 Hm2].
   constructor; simpl.
   - split; assumption.
-  - constructor; [|exact Hvr]. split; [exact Hvra|]. exists b. intros k [Hk|Hk]; [auto|]. apply Hh. exact Hk.
+  - constructor; [|exact Hvr]. split; [exact Hvra|exact I].
   - eapply ids_ok_gen with (st := st); [exact (i_ids _ _ H)|simpl; lia|reflexivity|].
     simpl. constructor; [simpl; lia|]. pose proof (proj1 (i_ids _ _ H)) as Hi'. rewrite HF in Hi'. inversion Hi'; subst.
     eapply Forall_id_weaken; [|eassumption]. lia.
@@ -497,36 +497,26 @@ Proof.
   - intros; discriminate.
 Qed.
 
-Lemma all_homogeneous_spec : forall b l, all_homogeneous b l = true -> forall k, In k l -> k = b.
-Proof.
-  intros b l H k Hin. unfold all_homogeneous in H. rewrite forallb_forall in H. specialize (H k Hin).
-  apply eqb_prop in H. symmetry. exact H.
-Qed.
-
 Lemma step_TCall : forall st s k f rest fa, Inv st s -> exc st = false -> frames st = f :: rest ->
-  all_homogeneous false (f_pend f) = true ->
   Inv (bump (mk st (fresh st (f_slot f) (f_ra f) (false :: f_pend f) :: rest) (flight st) false (extra st) (stale st)))
       (mcount_entry s k (f_slot f) fa).
 Proof.
-  intros st s k f rest fa H He HF Hh.
+  intros st s k f rest fa H He HF.
   assert (Hi : inexc s = false) by (rewrite (i_excb _ _ H); exact He).
   unfold mcount_entry. rewrite Hi.
   eapply Inv_tail with (s := s) (e := new_ent s false k (f_slot f) SNormal) (L' := rs s); eauto.
-  - apply all_homogeneous_spec. exact Hh.
   - exact (i_nolj _ _ H).
   - intros a. simpl. rewrite Hi. reflexivity.
 Qed.
 
 Lemma step_TPlt : forall st s k f rest, Inv st s -> exc st = false -> frames st = f :: rest ->
-  all_homogeneous true (f_pend f) = true ->
   Inv (bump (mk st (fresh st (f_slot f) (f_ra f) (true :: f_pend f) :: rest) (flight st) false (extra st) (stale st)))
       (plthook_entry s KNone k (f_slot f) 0).
 Proof.
-  intros st s k f rest H He HF Hh.
+  intros st s k f rest H He HF.
   assert (Hi : inexc s = false) by (rewrite (i_excb _ _ H); exact He).
   rewrite plthook_entry_noexc by exact Hi. unfold plthook_push. simpl. rewrite Hi.
   eapply Inv_tail with (s := s) (e := new_ent s true k (f_slot f) SNormal) (L' := rs s); eauto.
-  - apply all_homogeneous_spec. exact Hh.
   - exact (i_nolj _ _ H).
 Qed.
 
